@@ -87,7 +87,27 @@ def run(facts, rep):
         rep.saw(b)
         src = set()
         reduces = []
-        for p in SymEx(b, havoc_loops=True, max_paths=20000).run():
+        hp = SymEx(b, havoc_loops=True, max_paths=20000).run()
+        entry = {}
+        for p in hp:
+            for (fid, bb_, l), v in p.state.loop_entry.items():
+                if fid == 0 and strip(v)[0] != 'loopvar':
+                    entry[l] = sk(v)
+        # a counting `while` loop around reduce(i, k): which way does its counter move, and from where
+        wl = None
+        for p in hp:
+            if p.end != 'backedge':
+                continue
+            for e in p.calls():
+                if e.name.split('::')[-1] == 'reduce' and len(e.args) == 3:
+                    for y in __import__('symex').subterms(e.args[1]):
+                        if isinstance(y, tuple) and y and y[0] == 'loopvar' and isinstance(y[2], int):
+                            fin = sk(p.mem.get((('local', y[2]), ()), y))
+                            lv = sk(y)
+                            used = sk(e.args[1])
+                            guards = [(sk(c.term), 1 if c.value != 0 else 0) for c in p.branches() if lv in sk(c.term) and not sk(c.term).endswith('.1')]
+                            wl = (entry.get(y[2]), lv, used, fin, guards)
+        for p in hp:
             for e in p.calls():
                 nm = e.name.split('::')[-1]
                 a = [re.sub(r'&mut _\d+', 'IT', sk(x)) for x in e.args]
@@ -103,7 +123,19 @@ def run(facts, rep):
         n += 1
         desc = 'rev(Range::Range{start: 0, end: %s})' % KM1
         asc = 'Range::Range{start: 0, end: %s}' % KM1
-        if first not in reduces or loop not in reduces or len(reduces) != 2:
+        if wl is not None and first in reduces and len(reduces) == 2 and not src:
+            ent, lv, used, fin, guards = wl
+            dec = 'SubWithOverflow(%s, 1).0' % lv
+            inc = 'AddWithOverflow(%s, 1).0' % lv
+            if ent == KM1 and used == dec and fin == dec and guards == [('Gt(%s, 0)' % lv, 1)]:
+                rep.ok('E25.O3-descending', inst, 'i = k-1; while i > 0 { i -= 1; reduce(i, k) }')
+            elif ent == '0' and used == lv and fin == inc and len(guards) == 1 and guards[0][0] == 'Lt(%s, %s)' % (lv, KM1):
+                rep.violation('E25.O3-descending', inst,
+                              '%s size-reduces row k against the rows in ascending order (i = 0; while i < k-1 { reduce(i, k); i += 1 }): reduce(i, k) rewrites lambda[k, j] for every j < i (O1), so the entries reduced earlier are pushed out of |mu| <= 1/2 again - the result is not size-reduced for >= 4 rows' % name,
+                              where=b.where())
+            else:
+                rep.indet('E25.O3: %s walks the rows with a counter from %s, used as %s, stepped to %s under %s' % (name, ent, used, fin, guards))
+        elif first not in reduces or loop not in reduces or len(reduces) != 2:
             rep.indet('E25.O3: %s reduces with %s' % (name, reduces))
         elif src == {desc}:
             rep.ok('E25.O3-descending', inst, desc)
